@@ -387,3 +387,41 @@ def splitCols {a : Nat} : (l : List (Vec K m × Nat)) → Mat K a (dsSize (covBl
 
 end uniform
 end QM.C19
+
+namespace QM.C19
+open QM
+
+section slices
+
+theorem length_flatten_uniform {α : Type} (blocks : List (List α)) (m : Nat)
+    (h : ∀ b ∈ blocks, b.length = m) : blocks.flatten.length = m * blocks.length := by
+  induction blocks with
+  | nil => simp
+  | cons b r ih =>
+    simp only [List.flatten_cons, List.length_append, List.length_cons]
+    rw [ih fun x hx => h x (List.mem_cons_of_mem _ hx), h b (List.mem_cons_self ..)]
+    ring
+
+theorem drop_flatten_uniform {α : Type} (blocks : List (List α)) (m : Nat)
+    (h : ∀ b ∈ blocks, b.length = m) (j : Nat) :
+    blocks.flatten.drop (m * j) = (blocks.drop j).flatten := by
+  induction blocks generalizing j with
+  | nil => simp
+  | cons b r ih =>
+    cases j with
+    | zero => simp
+    | succ j =>
+      have hb := h b (List.mem_cons_self ..)
+      simp only [List.flatten_cons, List.drop_succ_cons]
+      rw [show m * (j + 1) = b.length + m * j by rw [hb]; ring, ← List.drop_drop, List.drop_left]
+      exact ih (fun x hx => h x (List.mem_cons_of_mem _ hx)) j
+
+theorem slice_flatten_uniform {α : Type} (blocks : List (List α)) (m : Nat)
+    (h : ∀ b ∈ blocks, b.length = m) (j : Nat) (hj : j < blocks.length) :
+    (blocks.flatten.drop (m * j)).take m = blocks[j] := by
+  rw [drop_flatten_uniform blocks m h j, List.drop_eq_getElem_cons hj, List.flatten_cons]
+  have : blocks[j].length = m := h _ (List.getElem_mem hj)
+  rw [← this, List.take_left]
+
+end slices
+end QM.C19
